@@ -1466,6 +1466,76 @@ fn drive_c17(sc: &E2Scenario, rep: &mut RunReport) {
                 }
             }
         }
+        // 5. the order in which the schema files are loaded is incidental (it follows their names):
+        //    with names that sort the other way round, the verdict is the same and every generated
+        //    file consists of the same tokens (declarations and union members may change places,
+        //    nothing may appear, vanish or change) - the environment-driven part of sentence 2
+        {
+            let p = &sc.project;
+            let sin = sc.schema_inputs();
+            // (only when the schema is configured by wildcard patterns, not by file names)
+            let by_glob = sin.len() >= 2 && !p.introspection() && sin.iter().all(|f| !p.config.schema_globs.iter().any(|g| g.contains(indep::basename(f))));
+            if by_glob {
+                let mut sorted = sin.clone();
+                sorted.sort();
+                let n = sorted.len();
+                let mut t2 = tree0.clone();
+                for (i, f) in sorted.iter().enumerate() {
+                    let b = t2.remove(f).unwrap();
+                    // first becomes last: prefixes that sort in reverse
+                    let renamed = format!("{}/r{}-{}", indep::dirname(f), n - i, indep::basename(f));
+                    t2.insert(renamed, b);
+                }
+                sandbox::reset_tree(&t2);
+                let (r5, after5) = rn.on_tree(cmds, "json", sc.hash_seeds[0], Some(sc.readdir_seeds[0]), &[]);
+                rep.probe("schema_files_loaded_in_reverse_order");
+                if r5.trapped() {
+                    rep.violate(&["C17", "C18", "C08"], &format!("trap@{}", r5.panic_site()), format!("schema files renamed: exit {} {}", r5.exit, tail(&r5.stderr_str())));
+                } else if r5.exit != g.exit {
+                    rep.violate(&["C17"], "C17.5-file-order-changes-verdict", format!("schema files renamed so that they load in reverse order: exit {} instead of {}: {}", r5.exit, g.exit, tail(&r5.stdout_str())));
+                } else {
+                    let toks = |b: &Vec<u8>| -> Vec<String> {
+                        let t = String::from_utf8_lossy(b);
+                        let mut out: Vec<String> = Vec::new();
+                        let mut cur = String::new();
+                        for ch in t.chars() {
+                            if ch.is_alphanumeric() || ch == '_' || ch == '$' {
+                                cur.push(ch);
+                            } else {
+                                if !cur.is_empty() {
+                                    out.push(std::mem::take(&mut cur));
+                                }
+                                if !ch.is_whitespace() {
+                                    out.push(ch.to_string());
+                                }
+                            }
+                        }
+                        if !cur.is_empty() {
+                            out.push(cur);
+                        }
+                        out.sort();
+                        out
+                    };
+                    for (path, b) in &gtree {
+                        if tree0.contains_key(path) || path.ends_with(".map") {
+                            continue;
+                        }
+                        match after5.get(path) {
+                            None => rep.violate(&["C17"], "C17.5-file-order-changes-output", format!("schema files renamed: {path} is no longer generated")),
+                            Some(b5) => {
+                                if toks(b) != toks(b5) {
+                                    rep.violate(
+                                        &["C17"],
+                                        "C17.5-file-order-changes-output",
+                                        format!("schema files renamed so that they load in reverse order: {path} does not consist of the same tokens any more ({} vs {} bytes)", b.len(), b5.len()),
+                                    );
+                                }
+                            }
+                        }
+                    }
+                }
+            }
+        }
         // 2. re-run on the tree left by the first run
         sandbox::reset_tree(&gtree);
         let (r2, after2) = rn.on_tree(cmds, "json", sc.hash_seeds[sc.hash_seeds.len() - 1], Some(sc.readdir_seeds[1]), &[]);
